@@ -699,7 +699,9 @@ impl Wal {
                 }
                 WalRecord::CommitTx { txid } => {
                     if current_txid != Some(txid) {
-                        return Err(Error::WalProtocol("CommitTx without matching BeginTx"));
+                        // A well-formed record that no transaction of this log can own
+                        // (stale bytes behind the last commit): unusable tail.
+                        break;
                     }
                     out.push(CommittedTx {
                         txid,
@@ -710,7 +712,7 @@ impl Wal {
                 }
                 other => {
                     if current_txid.is_none() {
-                        return Err(Error::WalProtocol("op outside tx"));
+                        break;
                     }
                     pending.push(other);
                 }
